@@ -64,6 +64,8 @@ class Gen:
         self.profile = profile
         self.pool = pool or Pool(rng, with_params=(profile == "all"), tag=tag)
         self.hits: dict[str, int] = {}
+        self.array_variety = True        # integer / non-contiguous coefficient arrays
+        self.clone_leaves = True         # equal-named but distinct Variable objects for one variable
 
     def hit(self, k):
         self.hits[k] = self.hits.get(k, 0) + 1
@@ -73,7 +75,26 @@ class Gen:
         return self.rng.choice(CONSTS)
 
     def coeffs(self, n):
-        return np.array([float(self.rng.choice([0, 1, 2, -1, 0.5, 3, -2])) for _ in range(n)])
+        """Coefficient array as a user may hold it: float64 (mostly), an integer dtype, a plain Python list of ints,
+        or a non-contiguous view (reversed / strided) of a longer buffer."""
+        r = self.rng
+        k = r.random()
+        if k < 0.70 or not self.array_variety:
+            return np.array([float(r.choice([0, 1, 2, -1, 0.5, 3, -2])) for _ in range(n)])
+        ints = [r.choice([0, 1, 2, -1, 3, -2]) for _ in range(n)]
+        if k < 0.80:
+            self.hit("coef:int64")
+            return np.array(ints, dtype=np.int64)
+        if k < 0.86:
+            self.hit("coef:int32")
+            return np.array(ints, dtype=np.int32)
+        if k < 0.92:
+            self.hit("coef:reversed-view")
+            return np.array([float(t) + 0.5 for t in ints])[::-1]
+        self.hit("coef:strided-view")
+        buf = np.zeros(2 * n)
+        buf[::2] = [float(t) - 0.25 for t in ints]
+        return buf[::2]
 
     def coeffs_distinct(self, n):
         base = self.rng.choice([1.0, 0.5, 2.0])
@@ -271,9 +292,17 @@ class Gen:
             return vector_sum(self.vec(depth=1))
         return self.view().sum()
 
+    def clone(self, v):
+        """A distinct Variable object denoting the same variable (same name, bounds, domain) - what a helper like
+        `def v(i): return Variable(f"v{i}")` called once per mention produces."""
+        self.hit("leaf:clone")
+        return Variable(v.name, lb=v.lb, ub=v.ub, domain=v.domain)
+
     def leaf(self):
         r = self.rng
         k = r.random()
+        if k < 0.07 and self.clone_leaves:
+            return self.clone(r.choice(self.pool.all_scalar_vars()))
         if k < 0.45:
             self.hit("leaf:var")
             return r.choice(self.pool.all_scalar_vars())
@@ -339,12 +368,15 @@ class Gen:
     # ---- focused corpus: every reduction kind under every one-node context ----
     def bases(self):
         kinds = list(self.RED_POLY) + ([] if self.profile == "poly" else list(self.RED_MORE))
-        return ["var", "prod", "var**2", "var**3", "(v+c)**2", "-var", "c*var"] + (["param"] if self.pool.params else []) + kinds
+        return ["var", "prod", "var**2", "var**3", "(v+c)**2", "-var", "c*var", "clones"] + (["param"] if self.pool.params else []) + kinds
 
     def base(self, name):
         r = self.rng
         if name == "var":
             return r.choice(self.pool.all_scalar_vars())
+        if name == "clones":
+            v = r.choice(self.pool.all_scalar_vars())
+            return self.clone(v) * r.choice([2, 3]) + self.clone(v) ** 2 + v
         if name == "param":
             return r.choice(self.pool.params) * r.choice(self.pool.all_scalar_vars())
         if name == "prod":
